@@ -402,6 +402,16 @@ def isRest (w : World) : Bool :=
   ((insts w).all fun i => (w.inst i).st == .finished || isAwaiting (w.inst i).st || (w.inst i).st == .running) &&
   w.lock.isNone
 
+/-- why the model is not at rest (for the driver's rejection message) -/
+def restWhy (w : World) : String :=
+  let bs := (buses w).filterMap fun b =>
+    if !(((w.bus b).queue.isEmpty || !(w.bus b).running || (w.bus b).rl == .exited)) then some s!"bus {b} has a queued event and a live run loop"
+    else if !((w.bus b).rl == .polling || (w.bus b).rl == .none || (w.bus b).rl == .exited) then some s!"run loop {b} holds an event"
+    else if (w.act (.rl b)).isSome then some s!"run loop {b} has an open activation" else none
+  let is := (insts w).filterMap fun i =>
+    if (w.inst i).st == .finished || isAwaiting (w.inst i).st || (w.inst i).st == .running then none else some s!"instance {i} is {repr (w.inst i).st}"
+  "; ".intercalate (bs ++ is ++ (if w.lock.isNone then [] else ["the global lock is held"]))
+
 /-- clauses evaluated in a quiescent state (no runnable work left) -/
 def Mon.rest (m : Mon) (w : World) : List Vio :=
   let v (prop clause : String) (sigs : List String) (detail : String) : List Vio := [{ prop, clause, sigs, detail }]
